@@ -17,6 +17,9 @@ exception while loading (`crash`); import edges: model == Entrypoint.imports (st
 `memo-mutated`). State inventory: translate/gen_session_state.py -> Generated/SessionState.lean (theorems inventory_*).
 Modules.load: translate/gen_load_shape.py -> Generated/LoadShape.lean (theorem load_generated); Py2Cpp.transpile / Interactive.rebuild_module: translate/gen_session_ops.py -> Generated/SessionOps.lean (transpile_generated / resubmit_generated); the unload methods: translate/gen_unload_shape.py -> Generated/UnloadShape.lean (theorems unload_one_generated / unload_generated);
 the library closure: translate/gen_lib_closure.py -> Generated/LibClosure.lean (lib_closure_*, compared with the real App on every run).
+The shapes module also has an operator and methods whose PARAMETERS nest the class type variable (list[T], dict[str, T], T | None) —
+two modules of one session instantiate the class with different actual types — and a class whose methods introduce several type variables
+of their own; the session `shared-generic#0` (both request orders, around unloads) is compared with fresh processes under ALL hash seeds.
 In-memory submissions may declare nothing (expression statements only) or die while their imports load, and are followed by another
 text for the same path; after every op the registry, the parsed sources and the symbol table are read independently (`unload-residue`).
 The fresh-process answers are asked for in a background thread while the sessions run (same requests, same answers: keyed by content).
